@@ -58,13 +58,33 @@ def parseClientVerb (ws : List String) : Option ClientVerb :=
   | ["load", k] => k.toNat?.map ClientVerb.load
   | ["loadmissing"] => some .loadMissing
   | ["list"] => some .list
+  | ["loadcorrupt"] => some .loadCorrupt
+  | ["loadcorrupt", _k] => some .loadCorrupt
+  | ["reload", k] => k.toNat?.map ClientVerb.reload
+  | ["reloadbad"] => some .reloadBad
+  | ["maxconn"] => some .workerOther
+  | ["confmetrics"] => some .workerOther
+  | ["metricdetail"] => some .metricDetail
+  | ["metricdetailbad"] => some .metricDetailBad
+  | ["count"] => some .list
+  | ["hc"] => some .list
+  | ["certs"] => some .list
+  | ["querybyid"] => some .query
+  | ["querydomain"] => some .query
+  | ["querycerts"] => some .query
   | ["none"] => some .none
   | ["launch"] => some .launchWorker
   | ["retsock"] => some .returnListenSockets
   | _ => none
 
-def parseVerb (fl : Flags) (ws : List String) : Option Verb :=
-  (parseClientVerb ws).map (ClientVerb.classify fl.answers)
+def parseVerb (fl : Flags) (allowed : Bool) (ws : List String) : Option Verb :=
+  (parseClientVerb ws).map (ClientVerb.classifyFor allowed fl.answers)
+
+/-- split the words of a `req2` line at "|" -/
+def splitBar (ws : List String) : List (List String) :=
+  ws.foldr (fun w acc => if w = "|" then [] :: acc else match acc with
+    | [] => [[w]]
+    | a :: rest => (w :: a) :: rest) [[]]
 
 def parseSt : String → Option St
   | "ok" => some .ok
@@ -72,10 +92,10 @@ def parseSt : String → Option St
   | "proc" => some .processing
   | _ => none
 
-def parseOp (fl : Flags) (ws : List String) : Option Op :=
+def parseOp (fl : Flags) (allowed : Bool) (ws : List String) : Option Op :=
   match ws with
   | "req" :: c :: rest =>
-    match c.toNat?, parseVerb fl rest with
+    match c.toNat?, parseVerb fl allowed rest with
     | some c, some v => some (.request c v)
     | _, _ => none
   | ["ans", w, rw, rt, rs, st] =>
@@ -130,6 +150,8 @@ structure DState where
   /-- workers whose channel ceiling is too small for a big request (`new W T S`:
       the last `S` workers) -/
   small : List Nat := []
+  /-- the clients' uid is in `command_allowed_uids` (or the list is unset) -/
+  allowed : Bool := true
 
 /-- Outside a hold every line is one `poll` batch: the event, then the run
     loop's finishing pass. `hold` … `release` delivers all the lines in between
@@ -146,12 +168,45 @@ def stepLine (fl : Flags) (d : DState) (line : String) : DState × List String :
       ({ hub := Hub.init fl.fwd fl.excl fl.retire t w, held := false, queue := [],
          small := (List.range w).filter (fun i => w ≤ i + sm) }, ["ok"])
     | _, _, _ => (d, ["bad-op"])
+  | ["new", w, t, sm, "deny"] =>
+    match w.toNat?, t.toNat?, sm.toNat? with
+    | some w, some t, some sm =>
+      ({ hub := Hub.init fl.fwd fl.excl fl.retire t w, held := false, queue := [],
+         small := (List.range w).filter (fun i => w ≤ i + sm), allowed := false }, ["ok"])
+    | _, _, _ => (d, ["bad-op"])
+  | "req2" :: c :: rest =>
+    -- two requests written back to back on one connection: `ClientSession::ready`
+    -- keeps the last one only
+    match c.toNat?, sessionPick ((splitBar rest).filterMap (parseVerb fl d.allowed)), (splitBar rest).all (fun ws => (parseVerb fl d.allowed ws).isSome) with
+    | some c, some v, true =>
+      if d.held then (d, ["bad-op"]) else
+      let h' := step (step d.hub (.request c v)) .tick
+      ({ d with hub := h' }, [delta d.hub h'])
+    | _, _, _ => (d, ["bad-op"])
+  | ["req", c, "reloadbad"] =>
+    -- `Config::load_from_path(path).unwrap_or_else(|_| panic!(…))`: the main process
+    -- dies in the handler (when the client is allowed to send it at all)
+    match c.toNat? with
+    | some c =>
+      if d.held then (d, ["bad-op"]) else
+      if !d.allowed then
+        let h' := step (step d.hub (.request c .workerBad)) .tick
+        ({ d with hub := h' }, [delta d.hub h'])
+      else if d.hub.run = .exited then (d, ["-"]) else
+      let known := if d.hub.known.contains c then d.hub.known else d.hub.known ++ [c]
+      let h' := { d.hub with run := .exited, known := known, closed := known }
+      ({ d with hub := h' }, [delta { d.hub with known := known } h'])
+    | none => (d, ["bad-op"])
   | ["req", c, "addbig"] =>
     -- a mutating request too large for the small workers' channels: scattered
     -- as usual, then every send to a small worker fails
     match c.toNat? with
     | some c =>
       if d.held then (d, ["bad-op"]) else
+      if !d.allowed then
+        let h' := step (step d.hub (.request c .workerBad)) .tick
+        ({ d with hub := h' }, [delta d.hub h'])
+      else
       let h1 := run d.hub (Op.request c .worker :: d.small.map Op.sendFail)
       let h' := step h1 .tick
       ({ d with hub := h' }, [delta d.hub h'])
@@ -162,7 +217,7 @@ def stepLine (fl : Flags) (d : DState) (line : String) : DState × List String :
     let h' := step (run d.hub d.queue) .tick
     ({ hub := h', held := false, queue := [] }, [delta d.hub h'])
   | ws =>
-    match parseOp fl ws with
+    match parseOp fl d.allowed ws with
     | some op =>
       if d.held then ({ d with queue := d.queue ++ [op] }, ["-"])
       else
